@@ -16,7 +16,7 @@ func init() {
 		trusted: []string{"the harness-side renderer; catalog equality is judged on the full JSON with every ordered collection compared as a set of entries"},
 	}
 	props["C20"] = &propCheck{
-		lean:    []string{"JSight.Props.C20", "JSight.Props.C04_Build"},
+		lean:    []string{"JSight.Props.C20", "JSight.Props.C04_Build", "JSight.Props.C20_Build"},
 		exes:    []string{"jsight-build"},
 		run:     runC20,
 		assume:  []string{"the locality theorems cover an appended TYPE, SERVER (with or without BaseUrl) and TAG on the catalog model (C04_Build.add_*_local) and additions/removals on the name registry; for the other kinds and for insertion points inside the document, that no OTHER entry changes is decided by search", "the schema library answers for existing bodies do not change when an unreferenced type or enum is added (observed)"},
